@@ -50,7 +50,7 @@ manifest = {
     ],
     "checks": checks,
     "not_applicable": not_applicable,
-    "notes": "Every check is generated-input search against an explicit oracle (property-based testing; coverage-guided fuzz targets under harness/fuzz for C03/C16 thorough). Exit 0 held / 1 violation / 2 inconclusive. known_findings.json lists genuine defects recorded or fixed. See DESIGN.md.",
+    "notes": "Every check is generated-input search against an explicit oracle (property-based testing; coverage-guided libFuzzer targets under harness/fuzz in the thorough tiers of C01/C02/C03/C12/C16/C20). Exit 0 held / 1 violation / 2 inconclusive. known_findings.json lists genuine defects recorded or fixed. See DESIGN.md.",
 }
 json.dump(manifest, open(os.path.join(ROOT, "MANIFEST.json"), "w"), indent=1)
 print("wrote MANIFEST.json:", len(checks), "checks,", len(not_applicable), "not yet claimed")
